@@ -1,8 +1,8 @@
 (* Model of the response handling of a generated rest client method (C10):
 
-     internal/restclient/cook.go:135-171       the "Results" part of cookClient
-                                               (arity and type checks, ReturnResultMap, ErrReturnMap)
-     internal/restclient/cook.go:307-322       getReturnTypeName
+     internal/restclient/cook.go               the "Results" part of cookClient (resultValues, arity and
+                                               type checks, ReturnResultMap, ErrReturnMap) and
+                                               getReturnTypeName, as of commits 5bf1aba / 9fecf90
      internal/restclient/cook.go:184-191       exprToString (go/printer on a type expression)
      internal/restclient/restclient.tmpl:16-21,34-37,42-45,54-56   the `return {{$errret}}` exits before the call
      internal/restclient/restclient.tmpl:94-130  c.client.Do, the status switch, the decode tail
@@ -91,13 +91,15 @@ Inductive fatal :=
 | FNotResponse       (* "the second to last return value ... must be a http response pointer" *)
 | FNotError          (* "the last return value ... must be an error"                *)
 | FNamed             (* "method %s with named return list is not supported"         *)
-| FUnsupported (node : string).   (* "unsupported return type: %T"                  *)
+| FUnsupported (node : string)    (* "unsupported return type: %T"                  *)
+| FArray (printed : string).      (* "unsupported array return type: %s (use a slice or a pointer)" *)
 
 (* getReturnTypeName *)
 Definition get_return_type_name (t : texpr) : fatal + (string * bool) :=
   match t with
   | TStar x => inr (print x, true)
-  | TArray _ _ => inr (print t, false)
+  | TArray (Some _) _ => inl (FArray (print t))      (* t.Len != nil: an array has no nil *)
+  | TArray None _ => inr (print t, false)
   | TMap _ _ => inr (print t, false)
   | _ => inl (FUnsupported (node_name t))
   end.
@@ -111,8 +113,17 @@ Record cooked := { ck_result : string * bool; ck_nils : nat }.
 Definition nth_type (l : list field) (i : nat) : texpr :=
   f_type (nth i l {| f_names := []; f_type := TOther "" "" |}).
 
-Definition cook_results (results : list field) : fatal + cooked :=
-  let n := List.length results in                       (* len(ftype.Results.List): FIELDS, not values *)
+(* resultValues: one entry per returned VALUE; a field declaring several names
+   (`a, b T`) yields one single-name entry per name *)
+Definition values (results : list field) : list field :=
+  flat_map (fun f => match f_names f with
+                     | [] => [f]
+                     | ns => map (fun n => {| f_names := [n]; f_type := f_type f |}) ns
+                     end) results.
+
+(* the checks of the Results part on the list of values *)
+Definition cook_values (results : list field) : fatal + cooked :=
+  let n := List.length results in                       (* len(resultValues(ftype.Results)) *)
   if (n <? 2)%nat then inl FTooFew
   else if (3 <? n)%nat then inl FTooMany
   else if negb (String.eqb (print (nth_type results (n - 2))) "*http.Response") then inl FNotResponse
@@ -121,7 +132,7 @@ Definition cook_results (results : list field) : fatal + cooked :=
     match results with
     | r :: _ =>
         match f_names r with
-        | _ :: _ => inl FNamed
+        | _ :: _ => inl FNamed                           (* r.name != "" *)
         | [] =>
             match get_return_type_name (f_type r) with
             | inl f => inl f
@@ -131,6 +142,8 @@ Definition cook_results (results : list field) : fatal + cooked :=
     | [] => inl FTooFew   (* unreachable: n = 3 *)
     end
   else inr {| ck_result := ("", false); ck_nils := n - 1 |}.
+
+Definition cook_results (results : list field) : fatal + cooked := cook_values (values results).
 
 (* number of VALUES the declared signature returns: a field without names is
    one value, `a, b T` is two *)
@@ -396,8 +409,8 @@ Arguments rv_err {V X} _.
 (* ------------------------------------------------------------------ *)
 (* Which result types can hold the `nil` that every error exit returns  *)
 
-(* Go: nil is assignable to pointers, slices and maps (of the shapes
-   getReturnTypeName lets through), not to an array [n]T *)
+(* Go: nil is assignable to pointers, slices and maps (the shapes
+   getReturnTypeName lets through), not to an array [n]T (refused since 9fecf90) *)
 Definition nilable (t : texpr) : bool :=
   match t with
   | TStar _ => true
